@@ -318,6 +318,11 @@ def run_case(idx, rng, tier, rep):
         sf = [f for f in res.frames if f.type == wire.SETTINGS and not f.ack]
         if len(sf) != 1 or len(res.frames) != 1:
             return fail('C11:update-emission-wrong', 'update_settings emitted %s' % [f.brief() for f in res.frames])
+        # the frame carries what the call said - all of it, also values equal to the ones in force or to ones still in flight:
+        # the peer applies frames, not differences
+        rep.count('update_frames_compared_with_the_call')
+        if sorted(sf[0].settings) != sorted(dict(d).items()):
+            return fail('C11:update-frame-differs-from-call', 'update_settings(%s) emitted SETTINGS %s' % (d, sf[0].settings))
         if any(k == kk for fr in fifo if fr != 'initial' for kk, _ in fr for k, _ in d):
             rep.count('same_key_twice_in_flight')
         fifo.append(d)
